@@ -11,7 +11,7 @@ import fnmatch, glob, json, os, subprocess, sys, time
 ENV = dict(os.environ, GOFLAGS='-mod=mod', GOPROXY='off', GOSUMDB='off', GOTOOLCHAIN='local')
 
 def run(cmd, cwd=None, timeout=3600):
-    p = subprocess.run(cmd, cwd=cwd, env=ENV, capture_output=True, text=True, timeout=timeout)
+    p = subprocess.run(cmd, cwd=cwd, env=ENV, capture_output=True, text=True, errors='replace', timeout=timeout)
     return p.returncode, p.stdout + p.stderr
 
 def main():
